@@ -164,8 +164,16 @@ def work(case):
             return out
         if mode.startswith("cli"):
             from sharepoint2text import cli
-            argv = [p] + {"cli": [], "cli-json": ["--json"], "cli-json-unit": ["--json-unit"], "cli-json-binary": ["--json", "--binary"]}[mode]
+            argv = [p] + {"cli": [], "cli-narrow": [], "cli-json": ["--json"], "cli-json-unit": ["--json-unit"], "cli-json-binary": ["--json", "--binary"]}[mode]
             so, se = io.StringIO(), io.StringIO()
+            if mode == "cli-narrow":
+                # a terminal / pipe with a narrow encoding (C locale, PYTHONIOENCODING=ascii): text that cannot be encoded makes the
+                # run fail, and a failed run must leave nothing on stdout - whatever had been written before counts
+                class _Narrow(io.TextIOWrapper):
+                    def getvalue(self):
+                        self.flush()
+                        return self.buffer.getvalue().decode("ascii")
+                so = _Narrow(io.BytesIO(), encoding="ascii", errors="strict", write_through=True)
             old = sys.stdout, sys.stderr
             # capture at both levels: sys.stdout (what the CLI writes) and file descriptor 1 (what a library that bound
             # the original sys.stdout at import time - xlrd's logfile - writes)
@@ -216,7 +224,10 @@ def gen_cases(run):
         sources.setdefault("zip", []).append(["synth", name])
     all_src = [(k, s) for k, v in sources.items() for s in v]
     per_base = run.n(24, 400)
-    modes_extra = ["read_file", "cli", "cli-json", "cli-json-unit", "cli-json-binary", "zip", "tar", "tgz", "attachment"]
+    modes_extra = ["read_file", "cli", "cli-narrow", "cli-json", "cli-json-unit", "cli-json-binary", "zip", "tar", "tgz", "attachment"]
+    # multi-result inputs whose first result is plain ASCII and whose later results are not
+    sources.setdefault("zip", []).append(["synth", "zip-ascii-then-nonascii"])
+    sources.setdefault("mbox", []).append(["synth", "mbox-ascii-then-nonascii"])
     cid = 0
     for kind in corpus.KINDS:
         bases = sources.get(kind, [])
